@@ -218,7 +218,7 @@ type docCheck struct {
 
 func Run(dir, tier string, seed int64) error {
 	run := coqgen.NewRun(dir, "C18", tier, seed)
-	run.Imports = "From Saml Require Import Base.Bytes Xml.Tree Xml.SchemaTypes Xml.Schema Idp.BuilderTypes Idp.Builder Corr.C18Corr."
+	run.Imports = "From Saml Require Import Base.Bytes Xml.Tree Xml.SchemaTypes Xml.Schema Idp.BuilderTypes Idp.Builder Xml.Unmarshal Corr.C18Corr."
 	run.CaseType = "c18case"
 	run.BadFn = "c18_bad"
 	run.PerShard = 40
@@ -300,6 +300,15 @@ func Run(dir, tier string, seed int64) error {
 		id++
 	}
 	idpEntity := sso.IssuerURL + "/metadata"
+	// unm: what a library decoder makes of a document against the model of Unmarshal
+	unm := func(flow string, doc []byte, decoded interface{}, derr error, desc map[string]interface{}) {
+		if c, ok := unmCase(id, doc, decoded, derr); ok {
+			run.Res.Evaluations++
+			run.Count("unmarshal=" + flow)
+			run.AddCase(id, c, map[string]interface{}{"flow": flow, "input": desc, "document": string(doc), "decode_error": fmt.Sprint(derr)})
+			id++
+		}
+	}
 	// ===== (1) the IdP's own messages through the endpoints, every hostile string in every data position
 	mkEnv := func(org string) *idp.Env {
 		conf := idp.DefaultConf()
@@ -349,6 +358,11 @@ func Run(dir, tier string, seed int64) error {
 			if _, ok := checkDoc(flow, rep.Msg, want, desc()); ok {
 				// the library's own decoder
 				dec, err := samlxml.DecodeResponse("", false, string(rep.Msg))
+				if dec == nil {
+					unm(flow, rep.Msg, &samlp.ResponseType{}, err, desc())
+				} else {
+					unm(flow, rep.Msg, dec, err, desc())
+				}
 				if err != nil {
 					id--
 					fail("library-decoder-rejects-own-message", fmt.Sprintf("%s: DecodeResponse: %v", flow, err), desc())
@@ -430,6 +444,24 @@ func Run(dir, tier string, seed int64) error {
 					built("response-failed-sso", "makeFailedResponse", "(Some "+recv+")", []string{dStr(code), dStr(msg), dStr("format")}, "samlp.ResponseType", rep.Msg, desc())
 				}
 				checkDoc("response-failed-sso", rep.Msg, []string{h + "#id"}, desc())
+			}
+			// the request documents themselves through the library's decoders (prefixes, hostile values, unknown and repeated
+			// elements, a wrong root, trailing content)
+			for vi, variant := range []string{areq,
+				strings.Replace(areq, `<saml:Issuer>`, `<saml:Issuer Format="`+esc(h)+`">`, 1),
+				strings.Replace(areq, `</samlp:AuthnRequest>`, `<unknown x="1">`+esc(h)+`<deep/></unknown><saml:Issuer>second</saml:Issuer><samlp:NameIDPolicy AllowCreate="true" Format="f"/><saml:Conditions NotBefore="`+esc(h)+`"><saml:AudienceRestriction><saml:Audience>a1</saml:Audience><saml:Audience>`+esc(h)+`</saml:Audience></saml:AudienceRestriction></saml:Conditions></samlp:AuthnRequest>`, 1),
+				strings.Replace(areq, `samlp:AuthnRequest`, `samlp:LogoutRequest`, 2),
+				areq + "<!-- c --> \n",
+				areq + "<trailing/>",
+				strings.Replace(areq, ` Version="2.0"`, ` Version="2.0" Version2="x" xmlns:ds="http://www.w3.org/2000/09/xmldsig#"`, 1)} {
+				dec, derr := samlxml.DecodeAuthNRequest("", idp.B64([]byte(variant)))
+				d := desc()
+				d["variant"] = vi
+				if dec == nil {
+					unm("request-authn", []byte(variant), &samlp.AuthnRequestType{}, derr, d)
+				} else {
+					unm("request-authn", []byte(variant), dec, derr, d)
+				}
 			}
 			// logout: request ID echoed
 			lreq := `<samlp:LogoutRequest xmlns:samlp="urn:oasis:names:tc:SAML:2.0:protocol" xmlns:saml="urn:oasis:names:tc:SAML:2.0:assertion" ID="` + esc(h+"#id") + `" Version="2.0"><saml:Issuer>` + sso.SPEntity + `</saml:Issuer><saml:NameID>` + esc(h) + `</saml:NameID></samlp:LogoutRequest>`
@@ -622,6 +654,15 @@ func Run(dir, tier string, seed int64) error {
 			run.Distinct(fmt.Sprintf("struct/%s/%d", t.name, len(doc)%17))
 			run.AddCase(id, fmt.Sprintf("KStruct %s %s %s %s", coqgen.Z(int64(id)), coqStr(typeKey(reflect.TypeOf(v))), g, coqgen.Bytes(string(doc))), map[string]interface{}{"type": t.name, "round": round, "document": string(doc)})
 			id++
+			// ... and back: Unmarshal of that document into a fresh value against the model of Unmarshal
+			v2 := t.new()
+			uerr := xml.Unmarshal(doc, v2)
+			if c, ok := unmCase(id, doc, v2, uerr); ok {
+				run.Res.Evaluations++
+				run.Count("unmarshal=" + t.name)
+				run.AddCase(id, c, map[string]interface{}{"type": t.name, "round": round, "document": string(doc), "unmarshal_error": fmt.Sprint(uerr)})
+				id++
+			}
 		}
 	}
 
